@@ -44,8 +44,13 @@ def build_config(scn):
     nsfx = deco.get('name_suffix', '')
     for i, r in enumerate(runs):
         bench = {'B%d' % i: _bench_details(r)}
-        suite = {'gauge_adapter': (r.get('gauge') or 'RebenchLog') if r.get('adapter', True) else 'NoSuchThing',
-                 'command': '%(benchmark)s %(invocation)s' + deco.get('cmd_suffix', ''),
+        gauge = r.get('gauge') or 'RebenchLog'
+        if r.get('custom') is not None:
+            # a custom gauge adapter loaded from a file next to the configuration: {class name: file}
+            gauge = {r['custom'].get('cls', 'MyAdapter'): 'adapter_%d.py' % r['custom'].get('variant', 0)}
+        suite = {'gauge_adapter': gauge if r.get('adapter', True) else 'NoSuchThing',
+                 'command': '%(benchmark)s %(invocation)s' + deco.get('cmd_suffix', '')
+                            + (' %(nosuchkey)s' if r.get('badcmd') else ''),
                  'benchmarks': [bench]}
         # settings at two configuration levels: the suite (general) and the benchmark (specific, wins);
         # `inherit_*`: only the suite level carries the effective value
@@ -98,6 +103,55 @@ def _bench_details(r):
     return d
 
 
+CUSTOM_ADAPTER = '''# custom gauge adapter written by the verification harness (variant %(variant)d)
+import re
+from rebench.interop.adapter import GaugeAdapter, OutputNotParseable, ResultsIndicatedAsInvalid
+from rebench.model.data_point import DataPoint
+from rebench.model.measurement import Measurement
+
+
+class %(cls)s(GaugeAdapter):
+    OFFSET = %(offset)r
+    re_total = re.compile(r"^(\\S+): iterations=1 runtime: (\\d+)ms")
+    re_alloc = re.compile(r"^(\\S+): alloc: (\\d+)kb")
+
+    def __init__(self, include_faulty, executor):
+        GaugeAdapter.__init__(self, include_faulty, executor)
+        self._other_error_definitions = [re.compile("FAILED")]
+
+    def parse_data(self, data, run_id, invocation):
+        iteration = 1
+        data_points = []
+        current = DataPoint(run_id)
+        for line in data.split("\\n"):
+            if self.check_for_error(line):
+                raise ResultsIndicatedAsInvalid("Output of bench program indicated error.")
+            m = self.re_alloc.match(line)
+            if m:
+                current.add_measurement(Measurement(invocation, iteration, float(m.group(2)), "kb", run_id, "alloc"))
+                continue
+            m = self.re_total.match(line)
+            if m:
+                current.add_measurement(Measurement(invocation, iteration, float(m.group(2)) + self.OFFSET, "ms",
+                                                    run_id, "total"))
+                data_points.append(current)
+                current = DataPoint(run_id)
+                iteration += 1
+        if not data_points:
+            raise OutputNotParseable(data)
+        return data_points
+'''
+
+
+def write_custom_adapters(workdir, scn):
+    for r in scn['runs']:
+        c = r.get('custom')
+        if c is not None:
+            v = c.get('variant', 0)
+            with open(os.path.join(workdir, 'adapter_%d.py' % v), 'w') as f:
+                f.write(CUSTOM_ADAPTER % {'variant': v, 'cls': c.get('cls', 'MyAdapter'), 'offset': 0.25 * v})
+
+
 RUN_RE = re.compile(r'(?:^|\s)\S*/x(\d+) B(\d+) (\d+)')
 
 
@@ -136,7 +190,7 @@ def render_output(i, k, o, deco=None):
         lines.append('B%d: iterations=1 runtime: %dms' % (i, 1000 * k + j))
     if o.get('marker'):
         pos = o.get('marker_pos', 1)
-        text = 'Error: simulated'
+        text = o.get('marker_text') or 'Error: simulated'
         if pos == 0:
             lines.insert(0, text)
         elif pos == 1:
@@ -159,6 +213,7 @@ class Script(object):
         self.lock = threading.Lock()
         self.gate = None       # thread controller (parallel scenarios)
         self.unknown = []
+        self.build_runs = {}   # build key -> how often it ran
         self.commands = []     # [run, invocation, time wrapper] of every benchmark start
         self.probes = []       # argv[0] of the Time adapter's availability probes
         # builds with identical text are told apart by the directory they run in
@@ -245,11 +300,21 @@ class _BuildOutcome(drive.Outcome):
         cm = re.search(r'dir(\d+)/?$', str(self._rec.get('cwd') or ''))
         if m.group(1) == 'e' and cm and int(cm.group(1)) in self._script.dir_build:
             key = 'e%d' % self._script.dir_build[int(cm.group(1))]
+        first = False
         with self._script.lock:
             if not self._rec.get('logged'):
-                self._rec['logged'] = True
+                self._rec['logged'] = first = True
                 self._script.log.append(('build', key, 0))
-        return int((self._script.sess.get('builds') or {}).get(key, 0))
+                n_before = self._script.build_runs.get(key, 0)
+                self._script.build_runs[key] = n_before + 1
+                self._rec['nth'] = n_before + 1
+        if first and self._script.gate is not None:
+            # a running build is a scheduling point: other workers go on (or wait for the build lock) meanwhile
+            self._script.gate.block(-1000 - len(self._script.log))
+        rc = int((self._script.sess.get('builds') or {}).get(key, 0))
+        if self._script.sess.get('builds_once') and self._rec.get('nth', 1) > 1:
+            rc = 1      # like `mkdir`: a build that cannot be repeated fails the second time
+        return rc
 
 
 # ---------------------------------------------------------------- one session
@@ -258,6 +323,7 @@ def run_session(workdir, scn, sess, timeout_guard=None):
     conf = os.path.join(workdir, 'test.conf')
     if not os.path.exists(conf):
         drive.write_config(workdir, build_config(scn))
+        write_custom_adapters(workdir, scn)
     script = Script(scn, sess)
     grabbed = {}
     orig = rb_main.ReBench.execute_experiment
@@ -310,6 +376,7 @@ def run_session(workdir, scn, sess, timeout_guard=None):
         if ta_saved is not None:
             ta_saved[0].subprocess = ta_saved[1]
         if controller is not None:
+            controller.snapshot_end()
             controller.stop()
     obs = {'status': res.status(), 'exit': res.exit, 'crash': list(res.crash) if res.crash else None,
            'traceback': ('Traceback (most recent call last)' in res.stdout + res.stderr),
@@ -322,6 +389,9 @@ def run_session(workdir, scn, sess, timeout_guard=None):
         obs['steps'] = controller.steps
         obs['ctl_error'] = controller.error
         obs['T'] = controller.T
+        obs['at_end'] = controller.at_end
+        obs['soft_releases'] = controller.soft_releases + controller.lock_waits
+        obs['build_runs'] = dict(script.build_runs)
         obs['chunks'] = controller.chunks if controller._orig_acquire is not None else None
     final = {}
     for r in grabbed.get('runs') or []:
@@ -389,10 +459,49 @@ class Controller(threading.Thread):
         self._orig_cls = None
         self._orig_acquire = None
         self.chunks = []       # what acquire_work handed out, in order
+        self.soft_releases = 0
+        self.lock_waits = 0
+        self.waiting = 0       # workers waiting for an executor lock
+        self._orig_rlock = None
+        self.at_end = None
 
     # -- patch point
     def install(self):
         ctl = self
+        # locks created by the executor (build lock, work-list lock) tell the controller when a worker waits for
+        # one of them: such a worker is as good as blocked (it waits for a worker that is blocked in a process)
+        self._orig_rlock = getattr(rb_exec, 'RLock', None)
+        if self._orig_rlock is not None:
+            real = threading.RLock
+
+            class WatchedRLock(object):
+                def __init__(self):
+                    self._l = real()
+
+                def acquire(self, blocking=True, timeout=-1):
+                    if self._l.acquire(False):
+                        return True
+                    if not blocking:
+                        return False
+                    with ctl.cv:
+                        ctl.waiting += 1
+                        ctl.cv.notify_all()
+                    try:
+                        return self._l.acquire(True, timeout)
+                    finally:
+                        with ctl.cv:
+                            ctl.waiting -= 1
+
+                def release(self):
+                    self._l.release()
+
+                def __enter__(self):
+                    self.acquire()
+                    return self
+
+                def __exit__(self, *a):
+                    self.release()
+            rb_exec.RLock = WatchedRLock
         base = getattr(rb_exec, 'BenchmarkThread', None)
         if base is None:
             raise lib.InfraError('patch point rebench.executor.BenchmarkThread is gone')
@@ -438,6 +547,8 @@ class Controller(threading.Thread):
             rb_exec.BenchmarkThread = self._orig_cls
         if getattr(self, '_orig_acquire', None) is not None:
             rb_exec.ParallelScheduler.acquire_work = self._orig_acquire
+        if self._orig_rlock is not None:
+            rb_exec.RLock = self._orig_rlock
 
     # -- called from the scripted process (subprocess thread of a worker)
     def block(self, run, inv=None):
@@ -450,29 +561,45 @@ class Controller(threading.Thread):
                     self.steps.append(['finish', run])
                 return
             self.blocked[run] = ev
-            self.steps.append(['start', run, inv] if run >= 0 else ['probe', run, None])
+            self.steps.append(['start', run, inv] if run >= 0 else ['probe' if run > -1000 else 'build', run, None])
             self.cv.notify_all()
         if not ev.wait(60):
             self.error = 'blocked process of run %s was never released' % run
 
     def _quiescent(self):
         return (self.T is not None and self.started >= self.T
-                and self.started - self.exited == len(self.blocked))
+                and self.started - self.exited == len(self.blocked) + self.waiting)
+
+    def _state(self):
+        return (self.T, self.started, self.exited, tuple(sorted(self.blocked)), len(self.steps), self.waiting)
 
     def run(self):
         deadline = time.time() + 90
+        last_state, since = None, time.time()
         while not self._stop:
             with self.cv:
-                if self._quiescent() and self.blocked:
+                st = self._state()
+                if st != last_state:
+                    last_state, since = st, time.time()
+                # soft quiescence: nothing has moved for a while although not every worker is blocked in a
+                # process — a worker is waiting for a lock that a blocked worker holds (build lock)
+                soft = (self.T is not None and self.started >= self.T and self.blocked
+                        and time.time() - since > 0.4)
+                if soft and not self._quiescent():
+                    self.soft_releases += 1
+                if self._quiescent() and self.waiting and self.blocked:
+                    self.lock_waits += 1
+                if (self._quiescent() or soft) and self.blocked:
                     runs = sorted(self.blocked)
                     c = self.schedule[self._pos] if self._pos < len(self.schedule) else 0
                     self._pos += 1
                     r = runs[c % len(runs)]
                     ev = self.blocked.pop(r)
                     self.released.append(r)
-                    self.steps.append(['finish', r] if r >= 0 else ['probe-done', r])
+                    self.steps.append(['finish', r] if r >= 0 else ['probe-done' if r > -1000 else 'build-done', r])
                     ev.set()
                     deadline = time.time() + 90
+                    last_state, since = None, time.time()
                     continue
                 self.cv.wait(0.05)
             if time.time() > deadline:
@@ -486,6 +613,11 @@ class Controller(threading.Thread):
             for ev in self.blocked.values():
                 ev.set()
             self.blocked.clear()
+
+    def snapshot_end(self):
+        """what is still going on when the session has returned"""
+        with self.cv:
+            self.at_end = {'workers_alive': self.started - self.exited, 'blocked': sorted(self.blocked)}
 
     def stop(self):
         self._stop = True
